@@ -1,5 +1,6 @@
 import PyomaVerif.Props.C12
 import PyomaVerif.Lemmas.Realise
+import PyomaVerif.Lemmas.DatGram
 namespace PV.C12
 open PV PV.Mat Matrix Finset
 
@@ -77,5 +78,217 @@ theorem hankYs_rows (Y Yref : Mat K) (p : ℕ) (s : K) (i c : ℕ) :
     (hankYs Y Yref p s).e i c =
       if i < (hankYp Y.c Yref p s).r then (hankYp Y.c Yref p s).e i c
       else (hankYf Y p s).e (i - (hankYp Y.c Yref p s).r) c := rfl
+
+/-! ## The data-driven clause over the model functions, for a recorded QR factor of any height
+
+`build_hank(…, "dat")` is `hankDat R r p` for `R = np.linalg.qr(Ys.T, mode="r")`, `Ys = hankYs Y Yref p s`
+(driver op `hank_dat_rec`, compared entrywise with the real function on the recorded `R`).  The contract
+`QrRec` of the recorded factor is defined in `Lemmas/DatGram.lean`. -/
+
+omit [Field K] in
+/-- **Layout of the data-driven matrix, every record length.**  `R` has `(r+l)(p+1)` columns (one per row
+    of `Ys`): the returned block has `(p+1)·l` rows and `min((p+1)·r, R.r)` columns. -/
+theorem C12_shape_dat_rec (R : Mat K) (l r p : ℕ) (hc : R.c = (r + l) * (p + 1)) :
+    (hankDat R r p).r = (p + 1) * l ∧ (hankDat R r p).c = min ((p + 1) * r) R.r := by
+  simp only [hankDat, Mat.transpose, hc]
+  constructor
+  · rw [Nat.add_mul, Nat.add_sub_cancel_left, Nat.mul_comm]
+  · rw [Nat.mul_comm]
+
+omit [Field K] in
+/-- with numpy's height `R.r = min(n, (r+l)(p+1))` (`n = N−1` columns of `Ys`): `min((p+1)·r, n)` columns —
+    the prescribed `(p+1)·r` **iff** `(p+1)·r ≤ n`; a shorter record gives a NARROWER matrix (the real
+    function does that: 6×2 for `l=3, r=2, br=1`, 6 samples). -/
+theorem C12_shape_dat_numpy (R : Mat K) (l r p n : ℕ) (hc : R.c = (r + l) * (p + 1))
+    (hk : R.r = min n ((r + l) * (p + 1))) :
+    (hankDat R r p).r = (p + 1) * l ∧ (hankDat R r p).c = min ((p + 1) * r) n := by
+  refine ⟨(C12_shape_dat_rec R l r p hc).1, ?_⟩
+  rw [(C12_shape_dat_rec R l r p hc).2, hk]
+  have : (p + 1) * r ≤ (r + l) * (p + 1) := by
+    rw [Nat.mul_comm]; exact Nat.mul_le_mul_right _ (Nat.le_add_right r l)
+  omega
+
+omit [Field K] in
+/-- the two model functions agree (shape and entries) as soon as `R` has at least `r(p+1)` rows -/
+theorem hankDat_eq_hankDatOfR (R : Mat K) (r p : ℕ) (h : r * (p + 1) ≤ R.r) :
+    hankDat R r p = hankDatOfR R r p := by
+  simp only [hankDat, hankDatOfR, Mat.transpose, Nat.min_eq_left h]
+
+section gram
+variable (Y Yref : Mat K) (p : ℕ) (s : K) (Q R : Mat K)
+
+/-- **Data-driven clause, no rank condition.**  For the model's stacked matrix `Ys = hankYs Y Yref p s`
+    and a recorded factor `R` with the QR contract, the returned block `H = hankDat R r p`
+    (`a' = min((p+1)r, R.r)` columns) has the Gram matrix of the future outputs `Yf = hankYf Y p s`
+    projected on the span of the first `a'` columns of `Q` — a subspace that CONTAINS the rows of the
+    past reference outputs `Yp` (third conjunct: `Yp = L₁₁·Q₁ᵀ`), and equals their span exactly when `Yp` has
+    full rank (`C12_dat_gram_model`). -/
+theorem C12_dat_gram_span_model (hqr : QrRec (hankYs Y Yref p s) Q R) :
+    let a := (p + 1) * Yref.r
+    let b := (p + 1) * Y.r
+    let n := Y.c - p - (p + 1) - 1
+    let a' := min a R.r
+    let H := toMx b a' (hankDat R Yref.r p).e
+    let Q1 : Matrix (Fin n) (Fin a') K := toMx n a' Q.e
+    let Yf := toMx b n (hankYf Y p s).e
+    Q1ᵀ * Q1 = 1 ∧ H = Yf * Q1 ∧ H * Hᵀ = Yf * (Q1 * Q1ᵀ) * Yfᵀ ∧
+      ∃ L11 : Matrix (Fin a) (Fin a') K, toMx a n (hankYp Y.c Yref p s).e = L11 * Q1ᵀ := by
+  intro a b n a' H Q1 Yf
+  obtain ⟨h11, h21, hYp, hYf⟩ := qr_blocks Y Yref p s Q R hqr
+  exact ⟨h11, DatGram.L21_eq _ _ _ _ _ h11 h21 hYf, DatGram.gram_span _ _ _ _ _ h11 h21 hYf, _, hYp⟩
+
+/-- **Data-driven clause over the model, projection form valid for rank-deficient Gram matrices and short
+    records.**  `Ys = hankYs Y Yref p s` (the model's stacked matrix), `R` a recorded factor with the QR
+    contract `QrRec` (any height), `H = hankDat R r p` the block the code returns.  `W` is ANY generalised
+    inverse of the past Gram matrix `PP = Yp·Ypᵀ` (`PP·W·PP = PP`: the inverse when there is one — the
+    former hypothesis `hW` — the Moore–Penrose inverse otherwise), so that `Ypᵀ·W·Yp` is the orthogonal
+    projector on the row space of `Yp`.  Then
+    `H·Hᵀ = Yf·Ypᵀ·W·Yp·Yfᵀ` — the Gram matrix of the orthogonal projection of the future outputs on the
+    past reference outputs.
+
+    Remaining hypothesis beyond the property text: **`Yp` has full rank**, given by a one-sided inverse
+    `Z` (`Yp·Z = 1`: independent rows, needs `(p+1)r ≤ N−1`; or `Z·Yp = 1`: independent columns, the
+    short-record case `N−1 ≤ (p+1)r`, where `PP` is necessarily singular).  It cannot be dropped:
+    `C12_dat_rank_needed` is an instance of the model with a duplicated reference channel where everything
+    else holds and the identity fails; the real function does the same (`ref_ind = [0, 0]`: relative
+    difference 0.9 between the two Gram matrices). -/
+theorem C12_dat_gram_model (hqr : QrRec (hankYs Y Yref p s) Q R)
+    (W : Matrix (Fin ((p + 1) * Yref.r)) (Fin ((p + 1) * Yref.r)) K)
+    (Z : Matrix (Fin (Y.c - p - (p + 1) - 1)) (Fin ((p + 1) * Yref.r)) K) :
+    let a := (p + 1) * Yref.r
+    let b := (p + 1) * Y.r
+    let n := Y.c - p - (p + 1) - 1
+    let H := toMx b (min a R.r) (hankDat R Yref.r p).e
+    let Yp := toMx a n (hankYp Y.c Yref p s).e
+    let Yf := toMx b n (hankYf Y p s).e
+    (Yp * Ypᵀ) * W * (Yp * Ypᵀ) = Yp * Ypᵀ → (Yp * Z = 1 ∨ Z * Yp = 1) →
+      H * Hᵀ = Yf * Ypᵀ * W * (Yp * Yfᵀ) := by
+  intro a b n H Yp Yf hW hZ
+  obtain ⟨h11, h21, hYp, hYf⟩ := qr_blocks Y Yref p s Q R hqr
+  exact (DatGram.gram_ginv _ _ _ _ _ Yp Yf (Nat.min_le_left _ _) h11 h21 hYp hYf W hW Z hZ).2
+
+/-- **Short records** (`R` has at most `(p+1)r` rows — with numpy's height: `N−1 ≤ (p+1)r`): the returned
+    block has `R.r` columns and its Gram matrix is that of the future outputs themselves, `H·Hᵀ = Yf·Yfᵀ`
+    (the past outputs span at most — for full rank exactly — the whole sample space, the projector is the
+    identity).  No rank condition. -/
+theorem C12_dat_gram_short (hqr : QrRec (hankYs Y Yref p s) Q R) (hk : R.r ≤ (p + 1) * Yref.r) :
+    let b := (p + 1) * Y.r
+    let n := Y.c - p - (p + 1) - 1
+    let H := toMx b (min ((p + 1) * Yref.r) R.r) (hankDat R Yref.r p).e
+    let Yf := toMx b n (hankYf Y p s).e
+    H * Hᵀ = Yf * Yfᵀ := by
+  intro b n H Yf
+  obtain ⟨h11, h21, -, hYf⟩ := qr_blocks Y Yref p s Q R hqr
+  have hb' : R.r - min ((p + 1) * Yref.r) R.r = 0 := by omega
+  have hYf' : Yf = H * (toMx n (min ((p + 1) * Yref.r) R.r) Q.e)ᵀ := by
+    show toMx _ _ (hankYf Y p s).e = _
+    rw [hYf]
+    ext i c
+    simp only [Matrix.add_apply, Matrix.mul_apply, H]
+    rw [add_eq_left]
+    apply Finset.sum_eq_zero
+    intro x _
+    exact absurd x.2 (by omega)
+  rw [hYf', Matrix.transpose_mul, Matrix.transpose_transpose, Matrix.mul_assoc,
+    ← Matrix.mul_assoc _ (toMx n _ Q.e), h11, Matrix.one_mul]
+
+end gram
+
+/-! ### Non-vacuity and sharpness: exact rational instances of the model
+
+In all three the data are chosen so that `Ys` is lower trapezoidal: `R = Ysᵀ` (cut to `min(n, a+b)` rows,
+which is `Ysᵀ` itself here) with `Q` = identity satisfies the QR contract — numpy returns this `R` up to
+the signs of its rows. -/
+section instances
+
+/-- `Q` = the `n × n` identity -/
+def exQ (n : ℕ) : Mat ℚ := ⟨n, n, fun i j => if i = j then 1 else 0⟩
+
+/-- (A) long record: 1 channel, 1 independent reference, `br = 1`, 8 samples: `Ys` is 4 × 4,
+    `Yp = [[2,0,0,0],[1,2,0,0]]` (independent rows), `Yf = [[3,1,2,0],[1,2,0,5]]`, `H = [[3,1],[1,2]]`. -/
+def exA_Y : Mat ℚ := ⟨1, 8, fun _ t => if t = 3 then 3 else if t = 4 then 1 else if t = 5 then 2 else if t = 7 then 5 else 0⟩
+def exA_Yr : Mat ℚ := ⟨1, 8, fun _ t => if t = 1 then 1 else if t = 2 then 2 else 0⟩
+def exA_R : Mat ℚ := Mat.transpose (hankYs exA_Y exA_Yr 1 1)
+def exA_W : ℕ → ℕ → ℚ := fun i j =>
+  if i = 0 ∧ j = 0 then 5/16 else if i = 1 ∧ j = 1 then 4/16 else -2/16
+def exA_Z : ℕ → ℕ → ℚ := fun i j =>
+  if i = 0 ∧ j = 0 then 1/2 else if i = 1 ∧ j = 0 then -1/4 else if i = 1 ∧ j = 1 then 1/2 else 0
+
+theorem exA_qr : QrRec (hankYs exA_Y exA_Yr 1 1) (exQ 4) exA_R where
+  cols := by decide
+  dec := by decide +kernel
+  orth := by decide +kernel
+  tri := by decide +kernel
+
+example : (hankDat exA_R exA_Yr.r 1).r = 2 ∧ (hankDat exA_R exA_Yr.r 1).c = 2 ∧
+    (hankDat exA_R exA_Yr.r 1).e 0 0 = 3 ∧ (hankDat exA_R exA_Yr.r 1).e 0 1 = 1 ∧
+    (hankDat exA_R exA_Yr.r 1).e 1 0 = 1 ∧ (hankDat exA_R exA_Yr.r 1).e 1 1 = 2 := by decide +kernel
+
+/-- all hypotheses of `C12_dat_gram_model` hold jointly (right-inverse branch, `W = (Yp·Ypᵀ)⁻¹`) -/
+example := C12_dat_gram_model exA_Y exA_Yr 1 1 (exQ 4) exA_R exA_qr (toMx _ _ exA_W) (toMx _ _ exA_Z)
+  (by decide +kernel) (Or.inl (by decide +kernel))
+
+/-- (B) short record: 1 channel, 2 independent references, `br = 1`, 7 samples: `n = 3 < a = 4`, `Ys` is
+    6 × 3, `Yp = [[1,0,0],[2,1,0],[3,1,0],[0,2,1]]` (independent columns, `Yp·Ypᵀ` singular),
+    `R` is 3 × 6 and `H = Rᵀ[4:, :4]` is 2 × 3. -/
+def exB_Y : Mat ℚ := ⟨1, 7, fun _ t => (t : ℚ) - 2⟩
+def exB_Yr : Mat ℚ := ⟨2, 7, fun ch t =>
+  if ch = 0 then (if t = 1 then 3 else if t = 2 then 1 else 0)
+  else (if t = 2 then 2 else if t = 3 then 1 else 0)⟩
+def exB_R : Mat ℚ := Mat.transpose (hankYs exB_Y exB_Yr 1 1)
+def exB_Z : ℕ → ℕ → ℚ := fun i j =>
+  if i = 0 then (if j = 0 then 1 else 0)
+  else if i = 1 then (if j = 0 then -2 else if j = 1 then 1 else 0)
+  else (if j = 0 then 4 else if j = 1 then -2 else if j = 3 then 1 else 0)
+
+theorem exB_qr : QrRec (hankYs exB_Y exB_Yr 1 1) (exQ 3) exB_R where
+  cols := by decide
+  dec := by decide +kernel
+  orth := by decide +kernel
+  tri := by decide +kernel
+
+example : exB_R.r = 3 ∧ exB_R.c = 6 ∧ (hankDat exB_R exB_Yr.r 1).r = 2 ∧ (hankDat exB_R exB_Yr.r 1).c = 3 ∧
+    (hankDat exB_R exB_Yr.r 1).e 0 0 = 1 ∧ (hankDat exB_R exB_Yr.r 1).e 1 2 = 4 := by decide +kernel
+
+/-- the fixed-width `hankDatOfR` is NOT what the code returns here (4 columns against the 3 of `hankDat` and of
+    the real function): it mirrors the code only for `r(p+1) ≤ R.r` (`hankDat_eq_hankDatOfR`) -/
+example : (hankDatOfR exB_R exB_Yr.r 1).c = 4 ∧ (hankDat exB_R exB_Yr.r 1).c = 3 := by decide
+
+/-- all hypotheses of `C12_dat_gram_model` hold jointly in the left-inverse branch (`W = Zᵀ·Z`, a
+    generalised inverse of the singular `Yp·Ypᵀ`), and those of `C12_dat_gram_short` -/
+example := C12_dat_gram_model exB_Y exB_Yr 1 1 (exQ 3) exB_R exB_qr ((toMx 3 4 exB_Z)ᵀ * toMx 3 4 exB_Z)
+  (toMx _ _ exB_Z) (by decide +kernel) (Or.inr (by decide +kernel))
+example := C12_dat_gram_short exB_Y exB_Yr 1 1 (exQ 3) exB_R exB_qr (by decide)
+example : (toMx 4 3 (hankYp exB_Y.c exB_Yr 1 1).e * (toMx 4 3 (hankYp exB_Y.c exB_Yr 1 1).e)ᵀ).det = 0 := by
+  decide +kernel
+
+/-- (C) duplicated reference channel (`Yref = Y[[0, 0]]`, 2 channels, `br = 0`, 6 samples):
+    `Yp = [[1,0,0,0],[1,0,0,0]]`, `Yf = [[0,0,0,0],[2,3,1,1]]`. -/
+def exC_Y : Mat ℚ := ⟨2, 6, fun ch t =>
+  if ch = 0 then (if t = 1 then 1 else 0)
+  else (if t = 2 then 2 else if t = 3 then 3 else if t = 4 then 1 else if t = 5 then 1 else 0)⟩
+def exC_Yr : Mat ℚ := ⟨2, 6, fun _ t => exC_Y.e 0 t⟩
+def exC_R : Mat ℚ := Mat.transpose (hankYs exC_Y exC_Yr 0 1)
+def exC_W : ℕ → ℕ → ℚ := fun i j => if i = 0 ∧ j = 0 then 1 else 0
+
+/-- **The full-rank hypothesis of `C12_dat_gram_model` cannot be dropped**: here the QR contract holds,
+    `W` is a generalised inverse of `Yp·Ypᵀ = [[1,1],[1,1]]`, and the Gram matrix of the returned block
+    (`[[0,0],[0,13]]`) is NOT that of the projection on the past reference outputs (`[[0,0],[0,4]]`): with
+    dependent rows in `Yp` the factor has a zero on its diagonal, the corresponding column of `Q` is an
+    arbitrary direction outside the past outputs, and the future outputs are projected on it as well. -/
+theorem C12_dat_rank_needed :
+    let Yp : Matrix (Fin 2) (Fin 4) ℚ := toMx _ _ (hankYp exC_Y.c exC_Yr 0 1).e
+    let Yf : Matrix (Fin 2) (Fin 4) ℚ := toMx _ _ (hankYf exC_Y 0 1).e
+    let H : Matrix (Fin 2) (Fin 2) ℚ := toMx _ _ (hankDat exC_R exC_Yr.r 0).e
+    let W : Matrix (Fin 2) (Fin 2) ℚ := toMx _ _ exC_W
+    QrRec (hankYs exC_Y exC_Yr 0 1) (exQ 4) exC_R ∧
+      (0 + 1) * exC_Yr.r = 2 ∧ (0 + 1) * exC_Y.r = 2 ∧ exC_Y.c - 0 - (0 + 1) - 1 = 4 ∧
+      min ((0 + 1) * exC_Yr.r) exC_R.r = 2 ∧
+      (Yp * Ypᵀ) * W * (Yp * Ypᵀ) = Yp * Ypᵀ ∧
+      H * Hᵀ ≠ Yf * Ypᵀ * W * (Yp * Yfᵀ) :=
+  ⟨⟨by decide, by decide +kernel, by decide +kernel, by decide +kernel⟩, by decide, by decide, by decide,
+    by decide, by decide +kernel, by decide +kernel⟩
+
+end instances
 
 end PV.C12
